@@ -86,7 +86,7 @@ class C13(Prop):
         r = ctx.rng("gen")
         Ls = list(range(1024)) if ctx.tier == "thorough" else sorted(set([0, 1, 2, 3, 4, 5, 19, 1023] + [r.randrange(1024) for _ in range(25)]))
         for L in Ls:
-            num = r.choice(SUPPORTED + [1150, 0])
+            num = r.choice(SUPPORTED + [1150, 0, 2048, 3053, 4095, 2048 + r.randrange(2048)])
             f = mk_frame(payload_for(r, L, num), r.choice([0, 0, 5]))
             yield ("FRAME " + hx(f), "bare", False)
             sfxs = [b"\x00", b"\x01\x02", b"\x01\x02\x03\x04", rand_bytes(r, 40), mk_frame(payload_for(r, 5, 1005))]
